@@ -1633,7 +1633,8 @@ class VFile(Sink):
 
 def cli_hook(vfs, argv):
     def hook(mm, c0, args):
-        c = c0
+        from interp import strip_generics as _sg
+        c = _sg(c0)
         meth = c.split('::')[-1].split('<')[0]
         a0 = args[0] if args else None
         if c in ('init', 'env_logger::init'):
@@ -1675,8 +1676,22 @@ def cli_hook(vfs, argv):
             if flag in av:
                 return SOME(Ref([RString(av[flag])], 0))
             return NONE()
-        if c.startswith('Path::new'):
-            return as_str(a0)
+        if c.startswith('Path::new') or re.match(r'<(PathBuf|OsString) as From<.*>>::from$', c) or c.startswith('PathBuf::from') or c.startswith('PathBuf::new'):
+            return as_str(a0) if args else ''
+        if c.startswith('PathBuf::push'):
+            q = as_str(args[1])
+            base = as_str(a0)
+            args[0].set(q if q.startswith('/') else (base.rstrip('/') + '/' + q if base else q))
+            return ()
+        if c.startswith('PathBuf::set_extension'):
+            p_ = as_str(a0)
+            fn = rust_file_name(p_)
+            ext = as_str(args[1])
+            if fn is None:
+                return False
+            stem = fn.rsplit('.', 1)[0] if '.' in fn[1:] else fn
+            args[0].set(p_[:len(p_.rstrip('/')) - len(fn)] + stem + ('.' + ext if ext else ''))
+            return True
         if c.startswith('Path::to_path_buf') or (c.startswith('<PathBuf as Deref>') and meth == 'deref') or c.startswith('PathBuf::from') or c.startswith('Path::as_os_str') or c.startswith('PathBuf::as_path'):
             return as_str(a0)
         p = as_str(a0) if args else None
